@@ -1,9 +1,12 @@
 #!/bin/bash
 # usage: tools_seed.sh <Cxx> <patch.diff> [tier]  -- apply a seeded change to /repo, run the check, undo it.
+# The evidence file is saved and restored: committed evidence must come from clean-tree runs only.
 pid=$1; patch=$2; tier=${3:-quick}
 cd /repo && git apply --check "$patch" || { echo "PATCH DOES NOT APPLY"; exit 3; }
+cp /verif/evidence/$pid.json /tmp/evidence_$pid.json.bak 2>/dev/null
 git apply "$patch"
 cd /verif && VERIF_SEARCH_S=${VERIF_SEARCH_S:-60} ./check $pid --tier $tier > /tmp/seed_$pid.log 2>&1; rc=$?
-git -C /repo checkout -- . 
+git -C /repo checkout -- .
+cp /tmp/evidence_$pid.json.bak /verif/evidence/$pid.json 2>/dev/null
 grep -E "VIOLATION|KNOWN-FINDING|== C|FAILED" /tmp/seed_$pid.log | head -12
 echo "exit=$rc"
